@@ -441,6 +441,7 @@ func (v *Verifier) applyContract(s *State, fc *FuncContract, sig *types.Signatur
 }
 
 func (v *Verifier) applyContractNamed(s *State, fc *FuncContract, sig *types.Signature, args []*Value, pos token.Pos, rt types.Type, name string, ifaceRecv bool) *Value {
+	calleeFn := v.curCallee
 	env := map[string]*Value{}
 	i := 0
 	if sig.Recv() != nil && !ifaceRecv {
@@ -462,6 +463,11 @@ func (v *Verifier) applyContractNamed(s *State, fc *FuncContract, sig *types.Sig
 		}
 	}
 	pre := s.clone()
+	// thorough tier: was the call reachable at all? (only then can its contract be blamed for an unreachable post-state)
+	reachableBefore := false
+	if thoroughTier && s.frame != nil && s.frame.fn == v.top && v.suppressObs == 0 {
+		reachableBefore = Solve(Script(append([]*Term{}, s.pc...), false), 5, false, false).Status != "unsat"
+	}
 	ev := &Eval{v: v, st: s, old: pre, env: env, mode: evalCall, fc: fc}
 	for _, c := range fc.Clauses {
 		if c.Kind == "requires" && !c.IsLoop {
@@ -581,6 +587,14 @@ func (v *Verifier) applyContractNamed(s *State, fc *FuncContract, sig *types.Sig
 		}
 	}
 	ev2 := &Eval{v: v, st: s, old: pre, env: env, mode: evalCall, fc: fc}
+	if calleeFn != nil && calleeFn != v.top && calleeFn.Blocks != nil && isModulePkg(fnPkg(calleeFn)) && contractMentionsLocked(fc) {
+		// locked(e) in the callee's postconditions: the moment the callee took its own lock, not a lock of this function
+		la := pre.clone()
+		v.noInterference++ // (keeps ghost scalars; ghost maps and heap arrays the callee can write are unknown)
+		v.noInterference--
+		v.havocBySummary(la, calleeFn, "Hlk!", true)
+		ev2.lockedAt = la
+	}
 	for _, c := range fc.Clauses {
 		if c.Kind == "ensures" && !c.IsLoop {
 			// an ensures clause of an assumed (interface / foreign) contract that is tagged with properties is an assumption
@@ -591,8 +605,42 @@ func (v *Verifier) applyContractNamed(s *State, fc *FuncContract, sig *types.Sig
 			s.assume(ev2.boolExpr(c.Expr))
 		}
 	}
+	// thorough tier: the state after assuming the callee's postconditions must be reachable (a contradictory contract
+	// application would make everything after the call vacuously true)
+	if thoroughTier && reachableBefore && s.frame != nil && s.frame.fn == v.top {
+		_, txt := v.srcLine(pos)
+		v.cover(s, "state after the call of "+name+" in \""+trunc(txt, 60)+"\"")
+	}
 	return res
 }
+
+// contractMentionsLocked: some ensures clause of fc uses locked(...).
+func contractMentionsLocked(fc *FuncContract) bool {
+	var has func(e *Expr) bool
+	has = func(e *Expr) bool {
+		if e == nil {
+			return false
+		}
+		if e.Op == "call" && e.Name == "locked" {
+			return true
+		}
+		for _, a := range e.Args {
+			if has(a) {
+				return true
+			}
+		}
+		return false
+	}
+	for _, c := range fc.Clauses {
+		if c.Kind == "ensures" && !c.IsLoop && has(c.Expr) {
+			return true
+		}
+	}
+	return false
+}
+
+// thoroughTier: extra reachability probes (set by RunCheck for -tier thorough).
+var thoroughTier = false
 
 // curProp is the property being checked.
 var curProp = ""
